@@ -507,6 +507,26 @@ package backend
 // C05: the hand-over from cached history to the live stream leaves no gap: when the request falls
 // inside the cached window the live filter starts no later than right after the newest cached event
 // (everything newer is still to be broadcast to the subscription made before the lookup)
+// catchUpEvents hands the cached events to the watcher in consecutive pieces: every event exactly once,
+// in order -- the first piece starts where the events start, each next piece starts where the previous
+// one ended, the last piece ends where the events end (ghost log of the slices sent on the channel)
+//@ ghost chan_sobj (Array Int (Array Int Int))
+//@ ghost chan_soff (Array Int (Array Int Int))
+//@ ghost chan_slen (Array Int (Array Int Int))
+//@ func (*backend).catchUpEvents(out, events)
+//@   props C05
+//@   nosafety
+//@   requires [something-to-send] len(events) >= 1 && out != nil
+//@   modifies inferred:(*backend).catchUpEvents
+//@   let n0 = old(chan_len)[out]
+//@   let n1 = chan_len[out]
+//@   ensures [starts-at-the-first-event] n1 > n0 && chan_soff[out][n0] == events.off
+//@   ensures [pieces-are-consecutive] forall(k, n0 <= k && k < n1, chan_sobj[out][k] == events.obj && (k+1 < n1 ==> chan_soff[out][k+1] == chan_soff[out][k]+chan_slen[out][k]))
+//@   ensures [ends-at-the-last-event] chan_soff[out][n1-1]+chan_slen[out][n1-1] == events.off+len(events)
+//@   loop 0 invariant [rest] events.obj == old(events.obj) && events.off+len(events) == old(events.off+len(events)) && len(events) >= 1 && chan_len[out] >= old(chan_len)[out]
+//@   loop 0 invariant [sent-so-far] ite(chan_len[out] == old(chan_len)[out], events.off == old(events.off), chan_soff[out][old(chan_len)[out]] == old(events.off) && chan_soff[out][chan_len[out]-1]+chan_slen[out][chan_len[out]-1] == events.off)
+//@   loop 0 invariant [pieces-are-consecutive] forall(k, old(chan_len)[out] <= k && k < chan_len[out], chan_sobj[out][k] == events.obj && (k+1 < chan_len[out] ==> chan_soff[out][k+1] == chan_soff[out][k]+chan_slen[out][k]))
+
 //@ func (*backend).processEvents(cancel, out, in, prefix, revision)
 //@   props C05
 //@   nosafety
